@@ -31,15 +31,19 @@ pub fn oracle_for(ti: usize, r: &mut Report) -> std::sync::Arc<Oracle> {
     }
     // interpreter runs (Miri) cannot afford the matrix powers: the driver computes the
     // oracle natively from the same sources (dump_oracles) and passes it in a file
-    if let Ok(path) = std::env::var("VERIF_C06_ORACLE") {
-        if let Ok(text) = std::fs::read_to_string(&path) {
-            let v: serde_json::Value = serde_json::from_str(&text).expect("oracle file");
-            let e = &v[TYPE_NAMES[ti]];
-            let mat = |key: &str| -> Mat {
-                let cols: Vec<BitVec> = e[key].as_array().unwrap().iter().map(|h| BitVec::from_bytes(&unhex(h.as_str().unwrap()))).collect();
-                Mat { n: cols.len(), cols }
-            };
-            let o = std::sync::Arc::new(Oracle { t: mat("t"), j: mat("j"), l: mat("l"), zero_fixed: true });
+    if let Ok(dir) = std::env::var("VERIF_C06_ORACLE") {
+        // one plain-text file per type and matrix: a hex column per line (cheap to parse
+        // under the interpreter)
+        let mat = |key: &str| -> Option<Mat> {
+            // raw bytes: n columns of n/8 bytes each
+            let raw = std::fs::read(format!("{}/{}.{}", dir, TYPE_NAMES[ti], key)).ok()?;
+            let n = with_spec!(ti, S => S::SEED_LEN * 8);
+            let cols: Vec<BitVec> = raw.chunks(n / 8).map(BitVec::from_bytes).collect();
+            if cols.len() != n { return None; }
+            Some(Mat { n, cols })
+        };
+        if let (Some(t), Some(j), Some(l)) = (mat("t"), mat("j"), mat("l")) {
+            let o = std::sync::Arc::new(Oracle { t, j, l, zero_fixed: true });
             m.lock().unwrap().insert(ti, o.clone());
             return o;
         }
@@ -58,12 +62,14 @@ pub fn oracle_for(ti: usize, r: &mut Report) -> std::sync::Arc<Oracle> {
 /// write T, T^(2^(n/2)), T^(2^(3n/4)) of every jump-capable type as observed natively
 pub fn dump_oracles(path: &str) {
     let mut r = Report::new();
-    let mut out = serde_json::Map::new();
+    std::fs::create_dir_all(path).expect("oracle dir");
     for &ti in &JUMP_TYPES {
         let o = oracle_for(ti, &mut r);
-        out.insert(TYPE_NAMES[ti].to_string(), json!({"t": o.t.hex_cols(), "j": o.j.hex_cols(), "l": o.l.hex_cols()}));
+        for (key, m) in [("t", &o.t), ("j", &o.j), ("l", &o.l)] {
+            let raw: Vec<u8> = m.cols.iter().flat_map(|c| c.to_bytes()).collect();
+            std::fs::write(format!("{}/{}.{}", path, TYPE_NAMES[ti], key), raw).expect("write oracle file");
+        }
     }
-    std::fs::write(path, serde_json::to_string(&serde_json::Value::Object(out)).unwrap()).expect("write oracle file");
 }
 
 fn outputs<S: Spec>(g: &mut S::R, n: usize) -> Vec<u64> {
@@ -232,7 +238,8 @@ fn case_typed<S: Spec>(ti: usize, sub: &str, id: u64, r: &mut Report) {
             let j = (i + 1 + p.below(words as u64 - 1) as usize) % words;
             let d = { let v = p.u64() & mask; if v == 0 { 1 } else { v } };
             let mut n_pairs = 0u64;
-            for k in 0..bits {
+            let step = if crate::util::REDUCED.load(std::sync::atomic::Ordering::Relaxed) { 16 } else { 1 };
+            for k in (0..bits).step_by(step) {
                 for variant in 0..3 {
                     let mut y = x.clone();
                     match variant {
